@@ -214,6 +214,26 @@ def strategy(tier):
 FUZZ = {"runs": 15000, "campaigns": 4}
 
 
+def exhaustive(tier):
+    """Every index form on every list length 0..4 (insert / setitem / delitem / pop), and every slice over a small grid with
+    right-hand sides of several lengths (setslice / delslice): one operation per case, lock-step with the built-in list."""
+    idx = list(range(-7, 8)) + [-100, 100]
+    for n in range(0, 5):
+        init = list(range(n))
+        for i in idx:
+            for op in ({"op": "insert", "i": i, "v": 9}, {"op": "setitem", "i": i, "v": 9, "objidx": False}, {"op": "delitem", "i": i, "objidx": False},
+                       {"op": "pop", "i": i}, {"op": "setitem", "i": i, "v": 9, "objidx": True}):
+                yield {"kind": "list", "item": "int", "init": init, "ops": [op]}
+        bounds = [None, -6, -3, -1, 0, 1, 2, 4, 6] if tier == "quick" else [None] + list(range(-6, 7))
+        for a in bounds:
+            for b in bounds:
+                for step in (None, 1, 2, -1, -2):
+                    yield {"kind": "list", "item": "int", "init": init, "ops": [{"op": "delslice", "s": (a, b, step)}]}
+                    size = len(range(*slice(a, b, step).indices(n)))
+                    for k in sorted({0, 1, size, size + 1}):
+                        yield {"kind": "list", "item": "int", "init": init, "ops": [{"op": "setslice", "s": (a, b, step), "items": list(range(50, 50 + k)), "ik": "list"}]}
+
+
 def budget(tier):
     if tier == "quick":
         return {"cases": 1200, "shards": 2}
